@@ -29,6 +29,16 @@ META = {
     "form, Bin1D.__eq__ (== iff same intervals for every index), apply_affine (pointwise, any array shape, size mismatch "
     "rejected), stack_xy/unstack_xy round trip, decompose_rws on ndarrays (Affine variant = ndarray variant on the linear "
     "part; non-2x2 rejected), maybe_zero and clamp contracts.  The "
+    "Second increment: nan / +-inf as ANY argument of maybe_int, snap_scale, snap_grid, is_affine_st, snap_affine and the "
+    "resolution branch of from_bbox (Model/C20NonFinite.lean: IEEE arithmetic on finite|inf|nan, Python's floor/ceil "
+    "OverflowError / ValueError, ZeroDivisionError) -- proved: on finite arguments the extended model IS the finite one, a "
+    "non-finite interval end / region coordinate is always rejected, a non-finite scale passes through snap_scale "
+    "unchanged, a nan rotation term is silently zeroed by snap_affine (observation, replayed) while an infinite one leaves "
+    "the matrix untouched; solvability of the normal equations (Gram determinant > 0 for three non-collinear sources, "
+    "Cauchy-Binet by rank-one updates) so affine_from_pts_normal_exact_total needs no hypothesis about the solver at all; "
+    "edge_index with the loop-variable semantics of the code (walks the boundary exactly once for sides >= 2, equals C03's "
+    "closed form there; degenerate shapes proved as found) and quasi_random_r2 (points in [0,1)^2 for every sign-preserving "
+    "rounding, inside the shape when scaled; bit-exact correspondence with binary64 products).  The "
     "model is tied to /repo on every run by an exact differential correspondence (all doubles for the "
     "split/int helpers, quotient-constructed dyadic operands elsewhere, exhaustive at tolerance edges; every public call "
     "form and rejected argument shape of the glue) and an independent Fraction oracle on arbitrary doubles; fits are also "
@@ -47,13 +57,12 @@ META = {
     "the zero-width interval with tol = 0 (equality there, proved and exercised).  Comparisons of internal steps (the "
     "private helpers _snap_edge_pos / _snap_edge, the design rows handed to LAPACK as multisets) are soft or skipped with "
     "a note when the interception point is gone; only observable behaviour decides.",
-    "inventory_not_modelled": "odc/geo/math.py parts without a Lean mirror in Model/C20*: edge_index and quasi_random_r2 "
-    "(covered by other properties / float32 arithmetic), norm_xy has a field-generic model (Lemmas/C20e, sqrt as witnesses) but no driver op, "
+    "inventory_not_modelled": "odc/geo/math.py parts without a Lean mirror in Model/C20*: quasi_random_r2 beyond 2^24 indices "
+    "(float32 arange collapses; observation), norm_xy has a field-generic model (Lemmas/C20e, sqrt as witnesses) but no driver op, "
     "Poly2d.fit end to end (dispatch, design rows, de-normalisation, cost and the fit theorems are modelled; LAPACK lstsq is a "
-    "parameter), Poly2d.__call__ with arrays of more than one dimension (1-d and Nx2 are modelled), non-finite inputs of "
-    "snap_scale / snap_grid / snap_affine (split_float / maybe_int / is_almost_int do model them), get_scale_at_point (oracle only), "
-    "the existence of the normal-equation solution for non-collinear points (the minimiser theorem is conditional on the solver "
-    "returning, i.e. on a non-zero Gram determinant).",
+    "parameter), Poly2d.__call__ with arrays of more than one dimension (1-d and Nx2 are modelled; an (a,b,2) array comes back "
+    "with its leading axes reversed -- outside the documented Nx2 contract), overflow of finite arithmetic to inf, signed zeros, "
+    "non-finite inputs of decompose_rws / affine_from_axis / Bin1D / Poly2d, get_scale_at_point (oracle only).",
     "technique": "Lean 4 proof over hand model + exhaustive/random differential correspondence with real code",
     "design_ref": "DESIGN.md §4 C20",
 }
@@ -1912,6 +1921,136 @@ def sec_glue(R: Run, M, Affine):
             R.oracle(F(got) == (0 if abs(z) < tol else z), "maybe-zero-contract", {"x": frac_s(z), "tol": frac_s(tol)}, got, sig="mzero")
 
 
+NONFIN = [float("nan"), float("inf"), float("-inf")]
+
+
+def xf_tok(v) -> str:
+    return xf_s(v)
+
+
+def sec_nonfinite(R: Run, M, Affine):
+    """nan / +-inf as ANY argument of maybe_int, snap_scale, snap_grid, is_affine_st, snap_affine (Model/C20NonFinite.lean):
+    small domain of dyadic finite values x the three non-finite ones, every position (coordinates, resolution, anchor
+    fraction, tolerance), exhaustive in the thorough tier and a large random subset in the quick tier; result or exception
+    KIND compared with the Lean model; oracles: a non-finite interval end is never turned into a grid, a non-finite
+    scale passes through snap_scale unchanged."""
+    rng = R.rng
+    fin = [0.0, 1.0, -1.0, 0.5, 2.5, 5.25, -7.25, 0.25]
+    tols = [0.01, 0.25, 0.0] + NONFIN
+    def out_mi(o):
+        return ("i:" + str(o)) if isinstance(o, int) and not isinstance(o, bool) else ("f:" + xf_s(o))
+
+    # maybe_int with any tolerance, snap_scale
+    for x in fin + [0.3, 2.0000001, 0.99, 1e-9, 3.0] + NONFIN:
+        for tol in tols:
+            R.corr(f"c20 mintx {xf_s(x)} {xf_s(tol)}", lambda: out_mi(M.maybe_int(x, tol)), sig=f"mintx|{'nonfinite' if not math.isfinite(x) or not math.isfinite(tol) else 'finite'}")
+            exact = (not math.isfinite(x)) or (not math.isfinite(tol)) or abs(x) >= 1 - tol or abs(x) < tol or x == 0 or isx(1 / F(x))
+            res_l = []
+
+            def fs():
+                o = M.snap_scale(x, tol)
+                res_l.append(o)
+                return out_mi(o)
+
+            if exact:
+                R.corr(f"c20 sscalex {xf_s(x)} {xf_s(tol)}", fs,
+                       sig=f"sscalex|{'s-nonfinite' if not math.isfinite(x) else 'tol-nonfinite' if not math.isfinite(tol) else 'finite'}")
+                if not math.isfinite(x):
+                    o = res_l[0] if res_l else "raised"
+                    R.oracle(isinstance(o, float) and (o == x or (math.isnan(o) and math.isnan(x))), "snap-scale-changes-nonfinite",
+                             {"s": xf_s(x), "tol": xf_s(tol)}, f"snap_scale({x!r},{tol!r}) = {o!r} (a non-finite scale is documented to be returned as is: "
+                             "'s if too far from snap')", sig="sscalex-passthrough")
+    # snap_grid: every position
+    xs = fin + NONFIN
+    ress = [1.0, -1.0, 0.5, -2.0, 0.0] + NONFIN
+    offs = [None, 0.0, 0.5, 1.0] + NONFIN
+    combos = [(x0, x1, res, off, tol) for x0 in xs for x1 in xs for res in ress for off in offs for tol in tols
+              if not all(v is None or math.isfinite(v) for v in (x0, x1, res, off, tol))]
+    if R.quick:
+        combos = rng.sample(combos, 4000)
+    for (x0, x1, res, off, tol) in combos:
+        got = []
+
+        def fg():
+            tx, nx = M.snap_grid(x0, x1, res, off, tol)
+            got.append((tx, nx))
+            return f"{xf_s(tx)} {nx}"
+
+        where = "+".join(n for n, v in (("x", x0), ("x", x1), ("res", res), ("off", off), ("tol", tol)) if v is not None and not math.isfinite(v))
+        o = R.corr(f"c20 gridx {xf_s(x0)} {xf_s(x1)} {xf_s(res)} {'N' if off is None else xf_s(off)} {xf_s(tol)}", fg,
+                   sig=f"gridx|{'none' if off is None else 'off'}|nonfinite={'+'.join(sorted(set(where.split('+'))))}")
+        if not (math.isfinite(x0) and math.isfinite(x1)):
+            R.oracle(o.startswith("ERR:"), "snap-grid-accepts-nonfinite-interval",
+                     {"x0": xf_s(x0), "x1": xf_s(x1), "res": xf_s(res), "off": "N" if off is None else xf_s(off), "tol": xf_s(tol)},
+                     f"snap_grid({x0!r},{x1!r},{res!r},{off!r},{tol!r}) returned {o}", sig="gridx-reject")
+    # is_affine_st / snap_affine with non-finite entries
+    ents = [1.0, 0.5, 0.0, 2.5, -1.0] + NONFIN
+    for _ in range(R.pick(1000, 15000)):
+        vals = [rng.choice(ents if rng.random() < 0.5 else ents[:5]) for _ in range(6)]
+        if rng.random() < 0.5:
+            vals[1], vals[3] = rng.choice([0.0, 0.0, 1e-9] + NONFIN), rng.choice([0.0, 0.0] + NONFIN)
+        if all(math.isfinite(v) for v in vals):
+            continue
+        if not all((not math.isfinite(v)) or abs(v) >= 1 or v == 0 or isx(1 / F(v)) for v in (vals[0], vals[4])):
+            continue
+        ttol, stol, tol = rng.choice([(1e-3, 1e-6, 1e-8), (1e-3, 1e-6, 1e-8), (float("nan"), 1e-6, 1e-8), (1e-3, float("inf"), 1e-8), (1e-3, 1e-6, float("nan")), (1e-3, 1e-6, float("inf"))])
+        A = Affine(*vals)
+        a_s = ";".join(xf_s(v) for v in vals)
+        R.corr(f"c20 stx {a_s} {xf_s(tol)}", lambda: bool_s(M.is_affine_st(A, tol)), sig="stx")
+        R.corr(f"c20 saffx {a_s} {xf_s(ttol)} {xf_s(stol)} {xf_s(tol)}", lambda: ";".join(xf_s(v) for v in tuple(M.snap_affine(A, ttol, stol, tol))[:6]),
+               sig=f"saffx|rot={'nan' if any(math.isnan(v) for v in (vals[1], vals[3])) else 'inf' if any(math.isinf(v) for v in (vals[1], vals[3])) else 'finite'}")
+
+
+def sec_seq(R: Run, M):
+    """edge_index (exhaustive on shapes 0..7 x 0..7, open and closed, every accepted spelling of the shape) and
+    quasi_random_r2 (bit-exact against the binary64 model: products rounded with C14's fl64, fmod exact; n, offset, shape
+    incl. n = 0) + contract oracles: the boundary of an array with both sides >= 2 is walked exactly once; points lie in
+    [0,1)^2 resp. inside the shape"""
+    from odc.geo import wh_, xy_
+    rng = R.rng
+    for ny in range(0, 8):
+        for nx in range(0, 8):
+            for closed in (False, True):
+                shp = rng.choice([(ny, nx), [ny, nx], wh_(nx, ny), xy_(nx, ny)])
+                got = []
+
+                def fe():
+                    o = list(M.edge_index(shp, closed=closed)) if closed else list(M.edge_index(shp))
+                    got.append(o)
+                    return list_s(o, lambda q: f"{q[0]};{q[1]}")
+
+                R.corr(f"c20 edgeidx {ny} {nx} {bool_s(closed)}", fe, sig=f"edgeidx|{'degenerate' if min(ny, nx) < 2 else 'regular'}|{'closed' if closed else 'open'}")
+                if got and ny >= 2 and nx >= 2:
+                    o = got[0][:-1] if closed else got[0]
+                    boundary = {(i, j) for i in range(ny) for j in range(nx) if i in (0, ny - 1) or j in (0, nx - 1)}
+                    ok = len(o) == len(set(o)) == len(boundary) and set(o) == boundary and (not closed or got[0][-1] == (0, 0))
+                    steps = all(abs(a[0] - b[0]) + abs(a[1] - b[1]) == 1 for a, b in zip(o, o[1:] + o[:1]))
+                    R.oracle(ok and steps, "edge-index-does-not-walk-boundary-once", {"shape": [ny, nx], "closed": closed},
+                             f"edge_index(({ny},{nx}), closed={closed}) = {got[0]}", sig="edgeidx")
+    for _ in range(R.pick(300, 3000)):
+        n = rng.choice([0, 1, 2, 5, 16, rng.randint(1, 60)])
+        offset = rng.choice([0, 0, 1, 7, 1000, rng.randint(0, 2**20), 2**24 - n - 1])
+        shape = rng.choice([None, None, (rng.randint(1, 5000), rng.randint(1, 5000)), (1, 1), (256, 256)])
+        got = []
+
+        def fq():
+            o = M.quasi_random_r2(n, shape, offset) if rng.random() < 0.5 else M.quasi_random_r2(n, shape=shape, offset=offset)
+            got.append(o)
+            if o.shape != (n, 2):
+                return f"SHAPE:{o.shape}"
+            return "[" + ",".join(f"{frac_s(float(r[0]))};{frac_s(float(r[1]))}" for r in o) + "]"
+
+        R.corr(f"c20 qr2 {n} {'N' if shape is None else str(shape[0]) + ';' + str(shape[1])} {offset}", fq,
+               sig=f"qr2|{'unit' if shape is None else 'scaled'}|{'n0' if n == 0 else 'n'}")
+        if got and got[0].shape == (n, 2) and n:
+            o = got[0]
+            hx, hy = (1, 1) if shape is None else (shape[1], shape[0])
+            ok = bool((o[:, 0] >= 0).all() and (o[:, 0] < hx).all() and (o[:, 1] >= 0).all() and (o[:, 1] < hy).all())
+            R.oracle(ok, "quasi-random-r2-outside-range", {"n": n, "shape": shape, "offset": offset},
+                     f"points outside [0,{hx}) x [0,{hy}): min {o.min(axis=0).tolist()} max {o.max(axis=0).tolist()}", sig="qr2")
+    R.assumptions.append("quasi_random_r2: float32 arange is exact (offset + n <= 2^24 in the harness; beyond that consecutive indices collapse)")
+
+
 def sec_growth(R: Run, M, Affine):
     """split_translation; Poly2d.fit dispatch and design matrices (norm_xy and lstsq substituted from the harness so that the
     rows LAPACK receives are observable and exact)"""
@@ -2012,6 +2151,8 @@ def run(R: Run):
     sec_poly(R, M, Affine)
     sec_poly_routes(R, M, Affine)
     sec_glue(R, M, Affine)
+    sec_nonfinite(R, M, Affine)
+    sec_seq(R, M)
     sec_growth(R, M, Affine)
     R.exhaustive = False
 
